@@ -238,6 +238,8 @@ type schedScn struct {
 	setup  func(x *schedX) // free-running: build state, declare threads
 	tail   func(x *schedX) // after all threads finished (free-running)
 	oracle func(x *schedX)
+	// custom replaces the mint-world execution altogether (wallet-world scenarios)
+	custom func(prefix []int) sched.Res
 }
 
 func execSched(sc *schedScn, prefix []int) (res sched.Res) {
@@ -650,6 +652,9 @@ func schedWorker(job json.RawMessage) (any, error) {
 	if sc == nil {
 		return nil, fmt.Errorf("unknown scenario %q", j.Scn)
 	}
+	if sc.custom != nil {
+		return sc.custom(j.Prefix), nil
+	}
 	return execSched(sc, j.Prefix), nil
 }
 
@@ -685,7 +690,12 @@ func replaySched(prop, path string) (int, bool) {
 		fmt.Println("unknown scenario", v.Replay.Scn)
 		return 2, true
 	}
-	res := execSched(sc, v.Replay.Prefix)
+	var res sched.Res
+	if sc.custom != nil {
+		res = sc.custom(v.Replay.Prefix)
+	} else {
+		res = execSched(sc, v.Replay.Prefix)
+	}
 	if res.Err != "" {
 		fmt.Println("error:", res.Err)
 		return 2, true
@@ -724,7 +734,7 @@ func RacePass(prop string, n int) int {
 	runs := 0
 	var names []string
 	for name, sc := range schedScns {
-		if sc.prop == prop {
+		if sc.prop == prop && sc.custom == nil {
 			names = append(names, name)
 		}
 	}
